@@ -67,6 +67,121 @@ CHECKS = {
         ref='DESIGN.md §3 C12'),
 }
 
+
+ALL = {
+    'C01': dict(
+        technique='solver-based: CrossHair/z3 symbolic execution of the real parser and encoder on a fully symbolic leaf string; '
+                  'CrossHair/z3 exhaustion of symbolic shape parameters; z3 table obligation on datatype names',
+        engine='crosshair-e1 + z3-e3',
+        text='Bounded model checking of parse->encode identity: (G) one fully symbolic canonical leaf (every string up to 2, '
+             'thorough 3, characters) at symbolically chosen positions of 12 segment/field/component/message skeletons through the '
+             'real parse_* and to_er7; (S) canonical text from a reference builder for every two-field shape (token, repetitions, '
+             'component, subcomponent) over a panel of segments of all versions, alone and inside a message with find_groups '
+             'on/off; (W) every withdrawn field number; (T) z3 over all FIELDS/DATATYPES rows for unknown datatype names. '
+             'Single-position round trips for ALL rows are part of C02.',
+        note='Composition of the per-leaf and per-shape results into arbitrary canonical messages is an assumption (stated in '
+             'DESIGN.md). Leaves longer than the bound are outside (E2 leaf lemma where built). TOLERANT, default delimiters.',
+        ref='DESIGN.md §3 C01'),
+    'C03': dict(
+        technique='solver-based: CrossHair/z3 exhaustion of symbolically chosen segment-line sequences through the real '
+                  'parse_message / to_er7, compared with a reference leaf extractor',
+        text='Bounded model checking: 4 message panels (ADT_A01 2.5, ORU_R01 2.3, Z-message, OML_O33 2.7) x every sequence of up '
+             'to 3 (thorough 4) lines from pools of 6-15 lines (in-structure, nested, foreign, Z, repeated, extra fields) x '
+             'find_groups on/off: either HL7apyException or same segment names in order and same non-empty leaves per segment.',
+        note='Line choices symbolic and exhausted; each message then runs concretely. TOLERANT only (the property says so).',
+        ref='DESIGN.md §3 C03'),
+    'C04': dict(
+        technique='solver-based: CrossHair/z3 exhaustion of symbolic (structure, instance kind, mutation, target) through the real '
+                  'validator, with purity / determinism / report-consistency assertions on every case',
+        text='Bounded model checking of validate(): conforming instances from a reference builder (required-only and all-children) '
+             'must validate; single-point mutations (drop required, repeat non-repeatable, unknown child, wrong datatype, foreign '
+             'segment) must fail with an error naming the element; on every case validate() leaves to_er7() unchanged, is '
+             'deterministic, is_valid == no errors, the raising form raises errors[0], the report file lists exactly the errors '
+             'and warnings. Quick: ~300 segments and 12 structures; thorough: all segments, 72 structures.',
+        note='Builder values are one token per base datatype; structures outside the slice are outside the claim.',
+        ref='DESIGN.md §3 C04'),
+    'C05': dict(
+        technique='solver-based: CrossHair/z3 exhaustion of symbolic (typed position, literal) pairs and of bounded histories run '
+                  'under both validation levels',
+        text='Bounded model checking: 16 typed positions x 37 valid/invalid literals, and every history of length <=2 over the C09 '
+             'alphabet on a segment, a message and a field: whatever STRICT accepts TOLERANT accepts with the same encoding and '
+             'report, and a STRICT-accepted element draws no validator error other than missing required children.',
+        note='Deep lexical side of DT/TM/DTM/NM/SI is C13. v2.5.',
+        ref='DESIGN.md §3 C05'),
+    'C07': dict(
+        technique='solver-based: CrossHair/z3 symbolic execution of parser._split_msh/get_message_info on 5-6 fully symbolic '
+                  'delimiter characters; CrossHair/z3 exhaustion of all role assignments over a candidate set at message level',
+        text='(H) get_message_info returns exactly the given characters or raises InvalidEncodingChars iff two are equal / one is '
+             'blank / a fifth is given below 2.7 - for ALL non-alphanumeric characters (symbolic); (M) every injective assignment '
+             'of 5 and 6 roles to a 7-character (thorough 8) candidate set x 4 versions: Message(..., encoding_chars) encodes '
+             'exactly the reference text, encoding_chars reads back on the message and on every descendant, to_mllp, and '
+             'parse_message round trip.',
+        note='Fully symbolic delimiters cannot pass str.split under CrossHair: message level uses a finite candidate set.',
+        ref='DESIGN.md §3 C07'),
+    'C08': dict(
+        technique='solver-based: CrossHair/z3 exhaustion of symbolic instance choices (presence bits, repetition counts) of message '
+                  'structures through the real group-finding parser, compared with a reference expander',
+        text='Bounded model checking: 24 structures (thorough 200, seeded) x 256 instances each: every parsed element is a declared '
+             'child of its parent, flattening gives the input sequence, find_groups=False encodes identically, and for structures '
+             'with unique segment names the tree equals the reference tree and has no structural validation error.',
+        note='Instances: first 6 optional children, up to 2 repeated groups whose first member is required and non-repeatable.',
+        ref='DESIGN.md §3 C08'),
+    'C11': dict(
+        technique='solver-based: CrossHair/z3 exhaustion of symbolic navigation-chain descriptors on real elements with before/after '
+                  'snapshots',
+        text='Bounded model checking: 360 read chains (3 targets x 6 paths x depth<=5 x 4 spellings) x 10 terminal observations x 1-3 '
+             'repetitions x 2 levels leave encoding, children tree and validation report unchanged; a write at the end of each '
+             'chain creates one element per level at its defined position and a second identical write adds nothing.',
+        note='v2.5; the 6 listed navigation paths.',
+        ref='DESIGN.md §3 C11'),
+    'C14': dict(
+        technique='solver-based: CrossHair/z3 exhaustion of symbolic table-row indices (ALL rows) through the real name / long-name / '
+                  'positional lookup for read, write and delete; z3 decision of the long-name domain',
+        engine='crosshair-e1 + z3-e3',
+        text='Every field, component and subcomponent row of the 12 versions: all spellings (HL7 name, usable long name, positional '
+             'path; upper/lower/alternating case) reach the identical child for read, write and delete; names that designate no '
+             'child raise ChildNotFound/ChildNotValid and leave the parent unchanged. Exhaustive over the finite table domain.',
+        note='Long names used only where unique, not an attribute name, not a sibling HL7 name (the property\'s restriction).',
+        ref='DESIGN.md §3 C14'),
+    'C16': dict(
+        technique='solver-based: CrossHair/z3 symbolic execution of the real MLLP request handler on a stub connection (symbolic '
+                  'body bytes, first-chunk size, truncation point, timeout step, routing case, raw frames)',
+        text='Bounded model checking of framing, extraction, routing and failure handling on the sequential path: every 7-bit body up '
+             'to 3 (5) bytes, every split of the first recv, every truncation/timeout point of a frame, 8 routing cases with and '
+             'without ERR handler, every raw frame up to 5 (6) bytes over {SB,EB,CR,M,|,0xC3}. N simultaneous clients and real TCP '
+             'timing are NOT covered (no encoding of threads/sockets in this technique).',
+        note='Stub socket is the environment model (listed in evidence). Concurrency part of C16 is outside the claim.',
+        ref='DESIGN.md §3 C16'),
+    'C17': dict(
+        technique='solver-based: CrossHair/z3 exhaustion of symbolic process defaults (version x level x delimiter set) against a '
+                  'corpus of calls with explicit arguments',
+        text='Bounded model checking: 12 default versions x 2 levels x 3 delimiter sets x 24 corpus calls give the same observable '
+             'signature as under pristine defaults; changing the defaults does not alter 5 kinds of existing elements.',
+        note='Corpus in harness/corpus.py; calls outside it are outside the claim.',
+        ref='DESIGN.md §3 C17'),
+    'C18': dict(
+        technique='solver-based: CrossHair/z3 exhaustion of symbolic (structure, profile edit, target, creation path)',
+        text='Bounded model checking: profiles synthesised by one edit (identity, tighten, require, forbid, retype) from 3 (11) '
+             'standard structures x 3 creation paths: children take datatype/cardinality from the profile, validate() follows the '
+             'profile where it differs and the identity profile changes nothing; MessageProfileNotFound / LegacyMessageProfile; '
+             'shipped iti_21 / old_pharm_h4 profiles.',
+        note='Edits of top-level children only.',
+        ref='DESIGN.md §3 C18'),
+    'C19': dict(
+        category='exploration',
+        technique='solver-based: CrossHair/z3 exhaustion of SERIAL schedules (ordered pairs / triples of corpus calls) - a necessary '
+                  'condition of the property; pre-emptive interleavings are outside the technique',
+        text='Only the call-boundary part of the schedule space: for every ordered pair (thorough: triple) of 24 corpus calls of '
+             'mixed versions and levels, the last call returns what it returns when run alone. This detects shared-state '
+             'poisoning of the kind fixed in 1.3.5 (#95); it says nothing about context switches inside a call.',
+        note='CrossHair has no thread model: interleavings inside a call cannot be encoded. Stated as exploration-level for that reason.',
+        ref='DESIGN.md §3 C19'),
+}
+
+READY = [l.strip() for l in open(os.path.join(VERIF, 'READY')).read().split()] if os.path.exists(os.path.join(VERIF, 'READY')) else []
+for _k in READY:
+    if _k in ALL and _k not in CHECKS:
+        CHECKS[_k] = ALL[_k]
 PLANNED = ['C%02d' % i for i in range(1, 20)]
 NOT_APPLICABLE = []
 
